@@ -80,7 +80,19 @@ def env_snapshot(env):
              for k, v in env.data(format=Format.TYPE).items()}
     units = {k: (copy.deepcopy(v.get("magnitude")), copy.deepcopy(v.get("dimensions")))
              for k, v in env.units.items()}
-    return {"keys": list(data.keys()), "data": data, "types": types, "units": units}
+    sources = {}
+    for sname, src in env.sources.items():
+        nodes = getattr(src, "nodes", None)
+        if nodes is None:
+            continue
+        rows = []
+        for n in nodes:
+            v = getattr(n, "value", None)
+            rows.append((n.name, copy.deepcopy(getattr(v, "value", None)),
+                         getattr(v, "unit", None)))
+        sources[sname] = rows
+    return {"keys": list(data.keys()), "data": data, "types": types, "units": units,
+            "sources": sources}
 
 
 def snapshot_equal(a, b):
@@ -93,6 +105,15 @@ def snapshot_equal(a, b):
             return False
         if not _exact(va, vb):
             return False
+    if list(a.get("sources", {})) != list(b.get("sources", {})):
+        return False
+    for k, rows in a.get("sources", {}).items():
+        other = b["sources"][k]
+        if len(rows) != len(other):
+            return False
+        for (n1, v1, u1), (n2, v2, u2) in zip(rows, other):
+            if n1 != n2 or u1 != u2 or not _exact(v1, v2):
+                return False
     if list(a["units"]) != list(b["units"]):
         return False
     for k in a["units"]:
@@ -467,13 +488,20 @@ class RoundGen:
                     llo, _ = self.express(node, lo, cu)
                     lhi, _ = self.express(node, hi, cu)
                 ops = rng.choice([(">=", "<="), (">", "<"), (">=", "<"), (">", "<=")])
+                pal = self.palette_bounds(node, c) if rng.random() < cfg["p_palette"] else None
+                if pal is not None:
+                    # bounds from a small palette of round numbers in a finer unit: the same
+                    # literal texts recur across nodes, rounds and runs
+                    cu, llo, lhi, lo, hi = pal
+                    if typ == "int":
+                        ops = (">", "<=")
                 expr = ["and", ["cmp", ops[0], llo, cu], ["cmp", ops[1], lhi, cu]]
                 closed = []
                 if ops[0] == ">=":
                     closed.append(lo)
                 if ops[1] == "<=":
                     closed.append(hi)
-                if rng.random() < 0.25:
+                if rng.random() < 0.25 and pal is None:
                     extra = hi + span * 4
                     lextra = self.express(node, extra, cu)[0] if cu not in (None, node["unit"]) \
                         else extra
@@ -526,6 +554,29 @@ class RoundGen:
             fits = [f for f in FORMATS if isinstance(v, str) and v in f[1]]
             f = rng.choice(fits) if fits and rng.random() < 0.85 else rng.choice(FORMATS)
             self.emit({"k": "format", "indent": indent, "regex": f[0]})
+
+    PALETTE = [15, 50, 150, 250, 750, 1500, 2500, 7500, 15000, 150000, 1500000]
+
+    def palette_bounds(self, node, c):
+        """(unit, lo literal, hi literal, lo, hi in node unit) bracketing c clearly, with the
+        literals taken from PALETTE in a finer unit of the node's family; None if no fit."""
+        if node["unit"] is None or not isinstance(c, (int, float)) or isinstance(c, bool) or c <= 0:
+            return None
+        fam = self.family_of(node["unit"])
+        pool = DM.INT_SAFE.get(fam, []) if node["type"] == "int" else DM.FAMILY.get(fam, [])
+        fn = self.g.units.factor(node["unit"])
+        finer = [u for u in pool if self.g.units.factor(u) < fn]
+        if not finer:
+            return None
+        cu = self.rng.choice(finer)
+        k = fn / self.g.units.factor(cu)          # node unit -> cu
+        x = c * k
+        below = [p for p in self.PALETTE if p < x * 0.9]
+        above = [p for p in self.PALETTE if p > x * 1.1]
+        if not below or not above:
+            return None
+        llo, lhi = below[-1], above[0]
+        return cu, llo, lhi, llo / k, lhi / k
 
     def s_modification(self, fault=None):
         rng, cfg = self.rng, self.cfg
@@ -599,7 +650,13 @@ class RoundGen:
             path = rng.choice(cands)
             node = self.g.nodes[path]
             st = {"k": "mod", "indent": 0, "name": path}
-            v = self.scalar_value(node["type"])
+            if rng.random() < 0.5:
+                # the typed form of an assignment must be refused just the same
+                st = {"k": "def", "indent": 0, "name": path, "type": node["type"],
+                      "bits": node["bits"], "unsigned": node["unsigned"],
+                      "dims": copy.deepcopy(node["dims"])}
+            v = self.scalar_value(node["type"]) if node["dims"] is None else \
+                self.good_value(node)
             unit = None
             self.chain_valid = False
             self.fault_label = "constant"
@@ -651,6 +708,25 @@ class RoundGen:
             ref = {"src": None, "query": "no.such.node"}
             rnode = None
             self.fault_label = "select_none"
+        elif fault == "select_several":
+            # a request that selects several nodes: all nodes, or the children of a group
+            cands = []
+            for src, dom in doms:
+                if len(dom.nodes) >= 2:
+                    cands.append({"src": src, "query": "*"})
+                groups = {}
+                for p in dom.nodes:
+                    parts = p.split(".")
+                    for k in range(1, len(parts)):
+                        groups.setdefault(".".join(parts[:k]), 0)
+                        groups[".".join(parts[:k])] += 1
+                cands += [{"src": src, "query": g + ".*"} for g, n in sorted(groups.items())
+                          if n >= 2]
+            if not cands:
+                return
+            ref = rng.choice(cands)
+            rnode = None
+            self.fault_label = "select_several"
         elif text_sources and rng.random() < 0.15:
             src = rng.choice(text_sources)
             chain = self.pick_chain()
@@ -808,9 +884,15 @@ class RoundGen:
                 q = rng.choice(groups) + ".*"
         else:
             q = "*"
-        # importing position: always below a fresh group so that paths cannot collide
+        # importing position: below a fresh group (paths cannot collide), or now and then
+        # below a group that an earlier import filled: nodes that exist already are then
+        # *assigned* the imported value (converted into their own unit)
         gname = None
-        for _ in range(10):
+        earlier = sorted({p.split(".")[0] for p in self.g.nodes
+                          if p.split(".")[0][:-1] in ("copy", "bowl", "plate", "bag", "imp")})
+        if earlier and fault is None and rng.random() < 0.3:
+            gname = rng.choice(earlier)
+        for _ in range(10 if gname is None else 0):
             c = rng.choice(["copy", "bowl", "plate", "bag", "imp"]) + str(rng.randint(1, 9))
             if not any(p == c or p.startswith(c + ".") for p in self.g.nodes):
                 gname = c
@@ -924,6 +1006,7 @@ class DipStoreMachine(Machine):
             "custom_units": rng.random() < 0.5,
             "constraints": False, "p_condition": 0, "p_options": 0, "p_format": 0,
             "p_boundary": rng.choice([0.0, 0.2, 0.5]),
+            "p_palette": rng.choice([0.0, 0.3, 0.6]),
             "nonnumeric_conditions": rng.random() < 0.5,
             "refs": False, "files": False, "p_str_slice": rng.choice([0.0, 0.3]),
             "io_faults": False, "callbacks": False,
@@ -958,8 +1041,8 @@ class DipStoreMachine(Machine):
             cfg["weights"]["cmp"] = rng.choice([0, 1, 2])
             cfg["callbacks"] = rng.random() < 0.4
             cfg["weights"]["fn"] = 1 if cfg["callbacks"] else 0
-            cfg["faults"] = [f for f in ("select_none", "missing_source", "import_none",
-                                         "missing_file") if rng.random() < 0.7]
+            cfg["faults"] = [f for f in ("select_none", "select_several", "missing_source",
+                                         "import_none", "missing_file") if rng.random() < 0.7]
             if cfg["callbacks"] and rng.random() < 0.7:
                 cfg["faults"].append("callback_raises")
         return cfg
@@ -1144,9 +1227,17 @@ class DipStoreMachine(Machine):
                 shape.append((hi + 1) if hi is not None else (lo or 1))
             gen.chain_valid = False
             gen.fault_label = "constraint_dims"
-            gen.emit({"k": "mod", "indent": 0, "name": path,
-                      "value": gen.array_value(node["type"], shape), "unit": None})
-        elif fault in ("select_none", "missing_source"):
+            st = {"k": "mod", "indent": 0, "name": path,
+                  "value": gen.array_value(node["type"], shape), "unit": None}
+            if rng.random() < 0.4:
+                # typed form that restates looser bounds: the node keeps its own
+                st = dict(st, k="def", type=node["type"], bits=node["bits"],
+                          unsigned=node["unsigned"], dims=[[None, None] for _ in node["dims"]])
+                gen.fault_label = "constraint_dims_typed_looser"
+            if node["unsigned"]:
+                st["value"] = DM.map_leaves(st["value"], abs)
+            gen.emit(st)
+        elif fault in ("select_none", "select_several", "missing_source"):
             gen.s_injection(fault)
         elif fault == "import_none":
             gen.s_import("select_none")
@@ -1221,6 +1312,17 @@ class DipStoreMachine(Machine):
             else:
                 chunks.append((c, c["stmts"]))
                 all_stmts += c["stmts"]
+        for st in all_stmts:
+            self.stats.probe("stmt_" + st["k"])
+            if st["k"] in ("def", "mod", "option", "options", "inject") and st.get("unit") and \
+                    st["unit"].startswith("["):
+                self.stats.probe("custom_unit_used")
+        if base is not None:
+            self.stats.probe("round_chained_on_earlier_environment")
+        if any(c["via"] == "file" for c, _ in chunks):
+            self.stats.probe("round_with_add_file")
+        if len(chunks) > 1:
+            self.stats.probe("round_with_several_chunks")
         # ---- model verdict
         expected, why, eprop = "commit", None, None
         io = op.get("io_fault")
